@@ -106,16 +106,35 @@ type Run struct {
 // Start parses the common flags and environment and returns the run object.
 // level is the MANIFEST level category (exploration, fault_enumeration, ...).
 func Start(prop, level string) *Run {
-	fs := flag.NewFlagSet(prop, flag.ExitOnError)
-	tier := fs.String("tier", "", "quick|thorough")
-	replay := fs.String("replay", "", "replay file")
-	_ = fs.Parse(os.Args[1:])
+	// --tier X / --replay X (also -tier, --tier=X); everything else is left in r.Args
+	var tierV, replayV string
+	var rest []string
+	argv := os.Args[1:]
+	for i := 0; i < len(argv); i++ {
+		a := strings.TrimLeft(argv[i], "-")
+		isFlag := strings.HasPrefix(argv[i], "-")
+		switch {
+		case isFlag && a == "tier" && i+1 < len(argv):
+			tierV = argv[i+1]
+			i++
+		case isFlag && strings.HasPrefix(a, "tier="):
+			tierV = strings.TrimPrefix(a, "tier=")
+		case isFlag && a == "replay" && i+1 < len(argv):
+			replayV = argv[i+1]
+			i++
+		case isFlag && strings.HasPrefix(a, "replay="):
+			replayV = strings.TrimPrefix(a, "replay=")
+		default:
+			rest = append(rest, argv[i])
+		}
+	}
+	tier, replay := &tierV, &replayV
 	// seaweedfs' glog writes files into /tmp unless told otherwise
 	if flag.Lookup("logtostderr") != nil {
 		_ = flag.Set("logtostderr", "true")
 		_ = flag.Set("alsologtostderr", "false")
 	}
-	r := &Run{Prop: prop, Level: level, Replay: *replay, Args: fs.Args()}
+	r := &Run{Prop: prop, Level: level, Replay: *replay, Args: rest}
 	r.Tier = *tier
 	if r.Tier == "" {
 		r.Tier = os.Getenv("VERIF_TIER")
